@@ -4,6 +4,8 @@
 //! hand-assembled COLR version 0 tables (sorted and UNSORTED base glyph records - the binary search then misses -,
 //! duplicate glyph ids, layer ranges partly or wholly beyond the layer array, palette index 0xFFFF, glyph ids >= 65536
 //! in the set) and on the COLR tables of the corpus fonts, against `c17.colr.v0pal`.
+//! Correspondence `colr-v1pal`: the real `Colr::v1_closure` on the corpus COLR tables (all paint formats, shared sub-paints,
+//! PaintColrGlyph chains) against the traversal model on the table bytes (`c17.colr.v1pal`).
 //! Correspondence `colr-pals` + oracle `colr-palettes=v0-closure(+v1)`: the plan's `colr_palettes` (hook plan_colr_view) of
 //! real `Plan::new` runs on corpus fonts against the model fed with the v0 part recomputed by the real API over the
 //! plan's glyphset_colred; for COLR version 0 fonts the keys must be exactly that set.
@@ -113,6 +115,19 @@ pub fn run(cfg: &Config, s: &mut Session, r: &mut Rng) {
             let k = r.range(1, 12) as usize;
             let gids: Vec<u32> = (0..k).map(|_| r.below(n.max(1) as u64) as u32).collect();
             v0_case(s, &colr, &gids);
+            // the COLRv1 half: the real `Colr::v1_closure` against the traversal model on the table bytes
+            if let Some(tb) = font.table_data(read_fonts::types::Tag::new(b"COLR")) {
+                let mut gs: IntSet<GlyphId> = IntSet::empty();
+                for g in &gids {
+                    gs.insert(GlyphId::new(*g));
+                }
+                let sorted: Vec<u32> = gs.iter().map(|g| g.to_u32()).collect();
+                let (mut ly, mut pl, mut vr) = (IntSet::<u32>::empty(), IntSet::<u16>::empty(), IntSet::<u32>::empty());
+                let ok = catch(|| colr.v1_closure(&mut gs, &mut ly, &mut pl, &mut vr)).is_ok();
+                let got: Vec<u32> = pl.iter().map(|p| p as u32).collect();
+                s.count(if got.is_empty() { "pal:v1-none" } else { "pal:v1-some" });
+                s.case("colr-v1pal", format!("c17.colr.v1pal {} G {}", hex(tb.as_bytes()), join(&sorted)), if ok { join(&got) } else { "trap".into() });
+            }
             let req = Req { gids: gids.clone(), unicodes: vec![], flags: 0 };
             let Ok(plan) = catch(|| make_plan(&font, &req)) else { continue };
             let view = vh::plan_view(&plan);
@@ -136,6 +151,16 @@ pub fn run(cfg: &Config, s: &mut Session, r: &mut Rng) {
             );
             let input = || format!("font={label} flags=0x0000 gids=[{}] unicodes=[]", join(&gids));
             s.oracle("colr-palettes-contain-v0-closure", v0.iter().all(|p| keys.contains(p)), input, || format!("v0 closure {:?} plan keys {:?}", v0, keys));
+            // both halves by the real APIs on the plan's final glyphset_colred = the plan's keys
+            {
+                let mut gs2 = set.clone();
+                let (mut ly, mut pl, mut vr) = (IntSet::<u32>::empty(), IntSet::<u16>::empty(), IntSet::<u32>::empty());
+                colr.v1_closure(&mut gs2, &mut ly, &mut pl, &mut vr);
+                let mut all: Vec<u32> = pl.iter().map(|p| p as u32).chain(v0.iter().copied()).collect();
+                all.sort();
+                all.dedup();
+                s.oracle("colr-palettes=closure-of-final-glyphset", keys == all, input, || format!("closure {:?} plan keys {:?}", all, keys));
+            }
             if colr.version() == 0 {
                 s.oracle("colr-palettes=v0-closure", keys == v0, input, || format!("v0 closure {:?} plan keys {:?}", v0, keys));
             }
